@@ -29,7 +29,8 @@ def _load_plan():
     return mod.PLAN
 
 
-def _worker(qualname: str):
+def _worker(job):
+    qualname, work, split_after = job
     sys.path.insert(0, VERIF)
     from pyvc.source import ensure_repo_on_path
 
@@ -40,7 +41,7 @@ def _worker(qualname: str):
     if not REG.fns:
         load_contracts(os.path.join(VERIF, "contracts"))
     try:
-        return verify_unit(qualname)
+        return verify_unit(qualname, work=work, split_after=split_after)
     except Exception as e:
         from pyvc.ctx import UnitResult
 
@@ -139,11 +140,10 @@ def main(argv=None) -> int:
     if missing:
         print(f"CHECKER-ERROR: units without contract: {missing}")
         return 3
-    results = []
-    ctxmp = multiprocessing.get_context("fork")
-    with cf.ProcessPoolExecutor(max_workers=max(1, min(args.jobs, len(units))), mp_context=ctxmp) as ex:
-        for r in ex.map(_worker, units):
-            results.append(r)
+    from pyvc.parallel import run_units
+
+    by_unit = run_units(units, args.jobs)
+    results = [by_unit[u] for u in units]
 
     findings = load_findings()
     errors: List[str] = []
